@@ -29,12 +29,14 @@ struct Outcome {
     notifications: u64,
     unchanged_notified: u64,
     sliced: u64,
+    failed_continues: u64,
 }
 
 fn run_case(c: &Compiled, seed: u64, i: u64, h: u64, max_ops: usize) -> Result<(Outcome, Vec<String>, Vec<Rec>), String> {
     let mut rng = Rng::derive(seed, "C11-hist", i * 10 + h);
     let host = HostCfg {
-        handler: true,
+        // a third of the histories run without an error handler: a story error then makes the continue return Err
+        handler: h % 3 != 2,
         fallbacks: true,
         fuel: Some(30_000),
         seed: Some(8),
@@ -44,7 +46,7 @@ fn run_case(c: &Compiled, seed: u64, i: u64, h: u64, max_ops: usize) -> Result<(
     let mut p = Player::new(c.json.clone(), c.info.clone(), host)?;
     // model of the registrations: var -> observers
     let mut reg: BTreeMap<String, BTreeSet<usize>> = BTreeMap::new();
-    let mut out = Outcome { diff: None, continues: 0, changed_vars: 0, notifications: 0, unchanged_notified: 0, sliced: 0 };
+    let mut out = Outcome { diff: None, continues: 0, changed_vars: 0, notifications: 0, unchanged_notified: 0, sliced: 0, failed_continues: 0 };
     let mut ops_log: Vec<String> = Vec::new();
     let globals = c.info.globals.clone();
     // initial registrations
@@ -71,6 +73,9 @@ fn run_case(c: &Compiled, seed: u64, i: u64, h: u64, max_ops: usize) -> Result<(
         }};
     }
     let mut steps = 0;
+    let has_probe = c.info.knots.iter().any(|k| k == "kprobe");
+    let mut recoveries = 0;
+    let mut last_failed = false;
     while steps < max_ops {
         steps += 1;
         let can = p.story.can_continue();
@@ -127,6 +132,12 @@ fn run_case(c: &Compiled, seed: u64, i: u64, h: u64, max_ops: usize) -> Result<(
             }
             continue;
         }
+        if roll == 4 && steps > 6 && has_probe && !p.story.has_error() && rng.chance(1, 2) {
+            // provoke a story error: the probe knot prints one line and falls off the end
+            let r = p.apply(&Op::ChoosePath("kprobe".into(), false));
+            ops_log.push(r.op.clone());
+            continue;
+        }
         if roll == 3 && steps > 4 {
             let op = if rng.chance(1, 2) { Op::Reset } else { Op::SaveLoadSame };
             if matches!(op, Op::SaveLoadSame) && p.story.has_error() {
@@ -167,6 +178,10 @@ fn run_case(c: &Compiled, seed: u64, i: u64, h: u64, max_ops: usize) -> Result<(
                 ops_log.push(r.op.clone());
             }
             out.continues += 1;
+            last_failed = failed;
+            if failed {
+                out.failed_continues += 1;
+            }
             if p.fuel_hit {
                 break;
             }
@@ -216,6 +231,12 @@ fn run_case(c: &Compiled, seed: u64, i: u64, h: u64, max_ops: usize) -> Result<(
             if !r.events.iter().all(|e| !e.starts_with("obs#")) {
                 fail!("notification-outside-a-continue", json!({"events": r.events}));
             }
+        } else if recoveries < 2 && (p.story.has_error() || last_failed) {
+            // the host recovers from a story error with a reset and plays on: registrations must keep working
+            recoveries += 1;
+            let r = p.apply(&Op::Reset);
+            ops_log.push(r.op.clone());
+            last_failed = false;
         } else {
             break;
         }
@@ -234,6 +255,7 @@ pub fn run(cfg: &Cfg) -> i32 {
     let mut gc = GenCfg::rich();
     gc.externals = true;
     gc.thread_boost = true;
+    gc.probe_knot = true;
     let mut sampled = 0;
     for i in 0..nprog {
         if !cfg.mine(i) {
@@ -257,6 +279,7 @@ pub fn run(cfg: &Cfg) -> i32 {
                     rep.case(if o.changed_vars > 0 { Some(fnv(&format!("{}|{h}", c.name))) } else { None });
                     rep.count_n("continues-bracketed-by-polling", o.continues);
                     rep.count_n("sliced-continues", o.sliced);
+                    rep.count_n("continues-that-returned-an-error (then reset and played on)", o.failed_continues);
                     rep.count_n("observed-changes", o.changed_vars);
                     rep.count_n("notifications-checked", o.notifications);
                     rep.count_n("notified-although-value-unchanged(allowed)", o.unchanged_notified);
